@@ -411,6 +411,19 @@ class PyExec:
                     return o % (c + 1) if c else z3.IntVal(0)
                 if c < 0 and ((~c) & ((~c) + 1)) == 0:
                     return o - o % ((~c) + 1)
+                if c >= 0:
+                    # general non-negative constant mask: sum over its runs of set bits  [lo, lo+len):
+                    # ((x div 2^lo) mod 2^len) * 2^lo   (two's complement, any sign of x)
+                    r, k = z3.IntVal(0), 0
+                    while (1 << k) <= c:
+                        if c & (1 << k):
+                            lo = k
+                            while c & (1 << k):
+                                k += 1
+                            r = r + ((o / (1 << lo)) % (1 << (k - lo))) * (1 << lo)
+                        else:
+                            k += 1
+                    return r
         if op == "|":
             for c, o in ((av, b), (bv, a)):
                 if c is not None and c >= 0:
@@ -426,6 +439,14 @@ class PyExec:
                 if m is not None:
                     base, k = m
                     return z3.If(z3.And(y >= 0, y < (1 << k)), x + y, self.island(st, op, a, b, node))
+            # semantic idiom, decided by the solver under the current path: x is a multiple of 2^k and 0 <= y < 2^k
+            # (disjoint bits)  =>  x | y == x + y
+            from .core import check_sat as _cs
+            for x, y in ((a, b), (b, a)):
+                for k in range(1, 33):
+                    cond = z3.And(x % (1 << k) == 0, y >= 0, y < (1 << k))
+                    if _cs(list(st.path) + [z3.Not(cond)], 2) == z3.unsat:
+                        return x + y
         return self.island(st, op, a, b, node)
 
     def shl_parts(self, t):
@@ -697,7 +718,7 @@ class PyExec:
                 if -len(o.items) <= k < len(o.items):
                     return o.items[k]
             raise OutOfSubset("symbolic tuple index")
-        if isinstance(o, PRef) and o.cls in ("list", "strbuilder"):
+        if isinstance(o, PRef) and o.cls in ("list", "strbuilder", "bytelist"):
             i = self.as_int(st, idx, n)
             ln = st.heap.len(o.addr)
             self.guard(st, "IndexError", z3.And(i >= -ln, i < ln), n)
@@ -761,7 +782,7 @@ class PyExec:
             raise OutOfSubset("ord of non-char")
         if name == "len":
             v = a[0]
-            if isinstance(v, PRef) and v.cls in ("list", "strbuilder"):
+            if isinstance(v, PRef) and v.cls in ("list", "strbuilder", "bytelist"):
                 return PInt(st.heap.len(v.addr))
             if isinstance(v, PTuple):
                 return PInt(len(v.items))
@@ -812,10 +833,13 @@ class PyExec:
         if isinstance(recv, POpt):
             self.guard(st, "AttributeError.None", z3.Not(recv.is_none), n)
             recv = recv.ref
-        if isinstance(recv, PRef) and recv.cls in ("list", "strbuilder"):
+        if isinstance(recv, PRef) and recv.cls in ("list", "strbuilder", "bytelist"):
             ln = h.len(recv.addr)
             if meth == "append":
                 v = a[0]
+                if recv.cls == "bytelist":
+                    # bytearray.append(v): ValueError unless 0 <= v < 256
+                    self.guard(st, "ValueError.byte_range", z3.And(ival(v) >= 0, ival(v) < 256), n)
                 if recv.cls == "strbuilder":
                     if not isinstance(v, PStr):
                         raise OutOfSubset("strbuilder.append of %s" % v.kind)
